@@ -3,7 +3,9 @@
 (* protect()/unprotect() against Oscore.tla.  One initial state per trace;  *)
 (* a trace is the list of experiments made with one genuine protected       *)
 (* message (or with the messages of one attacker behaviour).  Records:      *)
-(*  k = "outer":   oc, optnums, leak -- the serialised outer message of a   *)
+(*  k = "outer":   oc, obs (the request carries Observe), reqfetch (the     *)
+(*                 answered request's outer code was FETCH), optnums, leak  *)
+(*                 -- the serialised outer message of a                     *)
 (*                 protected message (code, option numbers, whether an      *)
 (*                 inner option value or the payload occurs in its bytes)   *)
 (*  k = "deliver": one unprotect() of a (possibly manipulated) message:     *)
@@ -61,7 +63,7 @@ TNext ==
            \* accepts the flipped message (nothing authenticated or mandatory changed, e.g. the
            \* k flag set on a response whose sender ID is empty), it is an equivalent message
            cls == IF e.e = "bitflip" THEN (IF x = "msg" THEN "kidctx_remove" ELSE "ct_corrupt") ELSE e.e
-           cs == IF e.k = "outer" THEN JudgeOuter(e.oc, ToSet(e.optnums), e.leak)
+           cs == IF e.k = "outer" THEN JudgeOuter(e.role, e.oc, e.obs, e.reqfetch, ToSet(e.optnums), e.leak)
                  ELSE JudgeDelivery(e.role, cls, e.rcpt = "peer", e.own, e.res, e.equal)
            dr == IF e.k = "deliver" /\ x # e.res THEN {"DRIFT_model"} ELSE {}
            nb == bad \cup cs \cup dr
